@@ -2,7 +2,7 @@
    Only statements; proofs are in Proofs/ResP*.v and Proofs/WorkerP*.v. *)
 From Coq Require Import ZArith Bool List.
 Import ListNotations.
-From Verif Require Import Model.Val Model.Res Model.Worker Proofs.ResP Proofs.ResP2 Proofs.WorkerP Proofs.WorkerP2 Proofs.WorkerP3 Proofs.WorkerP4 Proofs.WorkerPR.
+From Verif Require Import Model.Val Model.Res Model.Worker Proofs.ResP Proofs.ResP2 Proofs.WorkerP Proofs.WorkerP2 Proofs.WorkerP3 Proofs.WorkerP4 Proofs.WorkerPR Proofs.MonitorP.
 Open Scope Z_scope.
 
 (* For every history of allocate / allocate_multiple / deallocate / get_allocated_resources on a
@@ -139,6 +139,37 @@ Theorem C04_pool_no_oversubscription : forall tbl P, PInv tbl P ->
   (forall t w1 w2, holds (p_workers P) w1 t -> holds (p_workers P) w2 t -> w1 = w2).
 Proof. exact pool_no_oversubscription. Qed.
 Print Assumptions C04_pool_no_oversubscription.
+
+(* ---- the monitors applied to the implementation's observations are the decidable forms of the statements ---- *)
+Theorem C04_monitor_ledger : forall tot av a, check_ledger tot av a = true <->
+  (NoDup (map fst av) /\ map fst av = map fst tot /\ nonneg_vec av /\ recs_in av a /\
+   forall P, sumP P av + allocs_sum P a = sumP P tot).
+Proof. exact check_ledger_iff. Qed.
+Print Assumptions C04_monitor_ledger.
+Theorem C04_monitor_same : forall p, check_same p = true <-> fst p = snd p.
+Proof. exact check_same_iff. Qed.
+Print Assumptions C04_monitor_same.
+Theorem C04_monitor_demand : forall names tot placed profs,
+  check_demand names tot placed profs = true <->
+  forall n, In n names -> demand_name (obs_worker_of tot placed profs) n <= cap_name (obs_worker_of tot placed profs) n.
+Proof. exact check_demand_iff. Qed.
+Print Assumptions C04_monitor_demand.
+Theorem C04_monitor_held : forall names a placed profs,
+  check_held names a placed profs = true <->
+  (forall c l, In (c, l) a -> holder_ok placed profs c = true) /\
+  (forall t s, In (t, s) placed ->
+     if s_is_batch s then Exact_for names a (CBatch (s_id s)) (s_req s) else Exact_for names a (CTask t) (s_req s)) /\
+  (forall p req, In (p, req) profs -> Exact_for names a (CProf p) req).
+Proof. exact check_held_iff. Qed.
+Print Assumptions C04_monitor_held.
+Theorem C04_monitor_full : forall tot av a, check_full tot av a = true <-> a = [] /\ av = tot.
+Proof. exact check_full_iff. Qed.
+Print Assumptions C04_monitor_full.
+Theorem C04_monitor_pool : forall pp wp, check_pool_placed pp wp = true <->
+  (forall t w, In (t, w) pp -> exists l, zfind w wp = Some l /\ In t l) /\
+  (forall w l t, In (w, l) wp -> In t l -> zfind t pp = Some w).
+Proof. exact check_pool_placed_iff. Qed.
+Print Assumptions C04_monitor_pool.
 
 (* ---- what is FALSE without the hypotheses above (same witnesses as corpus/C04, replayed on /repo) ---- *)
 Theorem C04_replace_resident_refuted :
